@@ -20,6 +20,8 @@ def run(P, R, L):
     pair5(P, R, L)
     R.clause("PAIR-13", "every data block written by the table builder gets an index entry carrying its handle; the footer points at (metaindex, index)")
     K.pair13_block_indexed(P, R, L)
+    R.clause("PAIR-13 (keys)", "an index key is the InternalKey-level (guarded) separator / successor of the last key of its block, never a key assembled from the byte-level helper")
+    K.pair13_index_key_provenance(P, R, L)
     R.clause("PAIR-12", "the two-level iterator's (data block iterator, loaded block handle) pair is always written together")
     K.pair12_file_level_pairs(P, R, L, only={"tables::table::TwoLevelIterator"})
     R.clause("OWN-10", "every open table has its own block-cache partition id and caches blocks under (id, block offset)")
@@ -38,4 +40,8 @@ def run(P, R, L):
     K.ord20_empty_block_tested_before_finalize(P, R, L)
     R.clause("GRD-18", "table and log files are written with write_all (the builders account offsets by the intended length); reads are exact or count-checked")
     K.grd18_short_reads(P, R, L)
+    R.clause("SRC-3", "a level iterator opens the file the search over the whole file list finds for the seek target (first / last / neighbouring file for the other movements)")
+    K.src3_level_iterator_file_selection(P, R, L)
+    R.clause("WRAP-1", "a wrapper iterator repositions its child on every seek; a shortcut may trust the cached position only behind a test of its own validity")
+    K.wrap1_delegation(P, R, L)
     R.not_decided += ["prefix compression, separators, seek positions, iteration order (computed bytes)"]
